@@ -1,26 +1,43 @@
-(* C04 proofs, part 4: every prefix of one write-out, then histories. *)
+(* C04 proofs, part 4: runs of safe operations, the column phase, the commit tail of one write-out. *)
 From Coq Require Import List ZArith NArith Bool Arith Lia.
 From GoProbe.Base Require Import CorrLib.
-From GoProbe.C04 Require Import Model Proofs Proofs2 Proofs3.
+From GoProbe.C04 Require Import Model Proofs ProofsCols Proofs2 Proofs3.
 Import ListNotations.
 
 Lemma apply_all_app s l1 l2 : apply_all s (l1 ++ l2) = apply_all (apply_all s l1) l2.
 Proof. unfold apply_all. now rewrite fold_left_app. Qed.
 
-Lemma pre_run st l : Forall not_rename l -> forall s a, InvS st s a ->
-  InvS st (apply_all s l) a /\
-  (forall q d, day_at s q = Some d -> exists d', day_at (apply_all s l) q = Some d' /\ d_meta d' = d_meta d).
+Lemma run_safe st p0 m l : Forall (op_safe p0 m) l -> forall s a, InvS st s a -> mstate s p0 m ->
+  InvS st (apply_all s l) a /\ mstate (apply_all s l) p0 m /\
+  (forall q d, day_at s q = Some d -> exists d', day_at (apply_all s l) q = Some d' /\
+     d_meta d' = d_meta d /\ d_suf d' = d_suf d /\
+     forall c, Forall (fun o => ~ writes_col o c) l -> d_cols d c <> None -> d_cols d' c = d_cols d c).
 Proof.
-  induction 1 as [|o l NR F IH]; intros s a I; cbn.
-  - split; eauto.
-  - destruct (step_pre st s a o NR I) as [I1 D1]. destruct (IH _ _ I1) as [I2 D2]. split; auto.
-    intros q d Hq. destruct (D1 _ _ Hq) as (d1 & H1 & E1). destruct (D2 _ _ H1) as (d2 & H2 & E2).
-    exists d2. split; auto. congruence.
+  induction 1 as [|o l SF F IH]; intros s a I MS; cbn.
+  - split; [|split]; auto. intros q d Hq. exists d. split; [|split; [|split]]; auto.
+  - destruct (step_safe st s a p0 m o SF I MS) as (I1 & D1 & M1).
+    destruct (IH _ _ I1 M1) as (I2 & M2 & D2). split; [|split]; auto.
+    intros q d Hq. destruct (D1 _ _ Hq) as (d1 & H1 & K1 & K2 & K3). destruct (D2 _ _ H1) as (d2 & H2 & E1 & E2 & E3).
+    exists d2. split; [exact H2|]. split; [congruence|]. split; [congruence|].
+    intros c FW NN. inversion FW; subst. rewrite E3; auto. rewrite K3; auto.
 Qed.
+Lemma Forall_flat_map_in {A B} (P : B -> Prop) (f : A -> list B) l :
+  (forall x, In x l -> Forall P (f x)) -> Forall P (flat_map f l).
+Proof. induction l; cbn; intros H; auto. apply Forall_app; split; [apply H; now left|apply IHl; intros; apply H; now right]. Qed.
 Lemma Forall_firstn {A} (P : A -> Prop) k l : Forall P l -> Forall P (firstn k l).
 Proof. intros F. revert k. induction F; intros [|k]; cbn; auto. Qed.
-Lemma pre_prefix st l k s a : Forall not_rename l -> InvS st s a -> InvS st (apply_all s (firstn k l)) a.
-Proof. intros F I. apply pre_run; auto. now apply Forall_firstn. Qed.
+Lemma safe_prefix st p0 m l k s a : Forall (op_safe p0 m) l -> InvS st s a -> mstate s p0 m ->
+  InvS st (apply_all s (firstn k l)) a.
+Proof. intros F I MS. apply (run_safe st p0 m); auto. now apply Forall_firstn. Qed.
+
+Lemma mstate_upd s p d m f : day_at s p = Some d -> d_meta d = Some (Some m) -> d_meta (f d) = d_meta d ->
+  mstate (upd_day s p f) p m.
+Proof.
+  intros D M E d' D'. apply day_at_some in D as [L _]. unfold day_at in D'; cbn [f_days upd_day] in D'.
+  rewrite lookup_upd_same, L in D'. cbn in D'. destruct (otot_eqb _ _); [|discriminate]. injection D' as <-. left. congruence.
+Qed.
+Lemma mstate_at s p d m : day_at s p = Some d -> d_meta d = Some (Some m) -> mstate s p m.
+Proof. intros D M d' D'. left. congruence. Qed.
 
 Lemma tot_eqb_eq x y : tot_eqb x y = true -> x = y.
 Proof.
@@ -29,6 +46,78 @@ Qed.
 Lemma otot_eqb_eq x y : otot_eqb x y = true -> x = y.
 Proof. destruct x, y; cbn; intros H; try discriminate; auto. f_equal. now apply tot_eqb_eq. Qed.
 
+(* ------------------------------------------------------------------ the column phase *)
+(* the new block of write-out w is in place in column c of directory p0 *)
+Definition nb (s : fs) (p0 : dpath) (m : meta) (w : writeout) (c : nat) : Prop :=
+  exists d, day_at s p0 = Some d /\ read_col d c (nth c (m_cur m) 0) (w_len w c) = Some (blk w c).
+
+Lemma read_col_kept d d' c o l x : (d_cols d c <> None -> d_cols d' c = d_cols d c) ->
+  read_col d c o l = Some x -> read_col d' c o l = Some x.
+Proof.
+  unfold read_col. intros K. destruct (Nat.eqb l 0); auto.
+  destruct (d_cols d c) eqn:E; [|discriminate]. rewrite K by congruence. auto.
+Qed.
+
+Lemma nb_kept st p0 m w c l s a : Forall (op_safe p0 m) l -> Forall (fun o => ~ writes_col o c) l ->
+  InvS st s a -> mstate s p0 m -> nb s p0 m w c -> nb (apply_all s l) p0 m w c.
+Proof.
+  intros F NW I MS (d & D & R). destruct (run_safe st p0 m l F s a I MS) as (_ & _ & K).
+  destruct (K _ _ D) as (d' & D' & _ & _ & KC). exists d'. split; auto.
+  apply (read_col_kept d d'); auto.
+Qed.
+
+Lemma col_ops_safe p0 m w c : c < ncols -> Forall (op_safe p0 m) (col_ops p0 m w c).
+Proof.
+  intros Hc. unfold col_ops. destruct (Nat.eqb _ _); [constructor|].
+  destruct (nth c (w_renc w) false); cbn [app]; repeat (apply Forall_cons; [cbn; auto|]); apply Forall_nil.
+Qed.
+Lemma col_ops_other p0 m w c c' : c' <> c -> Forall (fun o => ~ writes_col o c) (col_ops p0 m w c').
+Proof.
+  intros NE. unfold col_ops. destruct (Nat.eqb _ _); [constructor|].
+  destruct (nth c' (w_renc w) false); cbn [app]; repeat (apply Forall_cons; [cbn; auto|]); apply Forall_nil.
+Qed.
+
+Lemma col_ops_nb s p0 m w c d : day_at s p0 = Some d -> nb (apply_all s (col_ops p0 m w c)) p0 m w c.
+Proof.
+  intros D. unfold col_ops. destruct (Nat.eqb (w_len w c) 0) eqn:Z.
+  - apply Nat.eqb_eq in Z. exists d. split; auto. unfold blk. rewrite Z. reflexivity.
+  - set (off := nth c (m_cur m) 0).
+    (* after OpenFile the column file exists *)
+    assert (O : exists s1 d1 old, fst (apply s (OOpenW (RCol p0 c))) = s1 /\ day_at s1 p0 = Some d1 /\ d_cols d1 c = Some old).
+    { cbn [apply]. rewrite D. destruct (d_cols d c) as [old|] eqn:DC; cbn [fst].
+      - exists s, d, old. auto.
+      - eexists _, _, _. split; [reflexivity|]. split; [apply day_at_upd; eauto|]. cbn. now rewrite Nat.eqb_refl. }
+    destruct O as (s1 & d1 & old & E1 & D1 & C1).
+    assert (W : nb (fst (apply s1 (OWrite (RCol p0 c) off (WBytes (blk w c))))) p0 m w c).
+    { cbn [apply]. rewrite D1, C1. cbn [fst]. eexists. split; [apply day_at_upd; eauto|].
+      unfold read_col. rewrite Z. cbn [set_col d_cols]. rewrite Nat.eqb_refl.
+      assert (RW : firstn (w_len w c) (skipn off (write_at old off (blk w c))) = blk w c)
+        by (rewrite <- (blk_len w c) at 1; apply read_at_written).
+      fold off. rewrite RW, blk_len, Nat.eqb_refl. reflexivity. }
+    destruct (nth c (w_renc w) false); unfold apply_all; cbn [app fold_left]; rewrite E1; exact W.
+Qed.
+
+Lemma cols_phase st p0 m w cs : NoDup cs -> (forall c, In c cs -> c < ncols) ->
+  forall s a, InvS st s a -> mstate s p0 m -> (exists d, day_at s p0 = Some d) ->
+  forall c, In c cs -> nb (apply_all s (flat_map (col_ops p0 m w) cs)) p0 m w c.
+Proof.
+  induction 1 as [|c0 cs NI ND IH]; intros LT s a I MS [d D] c Hc; [contradiction|].
+  cbn [flat_map]. rewrite apply_all_app.
+  assert (SF0 : Forall (op_safe p0 m) (col_ops p0 m w c0)) by (apply col_ops_safe, LT; now left).
+  destruct (run_safe st p0 m _ SF0 s a I MS) as (I1 & M1 & K1).
+  destruct (K1 _ _ D) as (d1 & D1 & _).
+  destruct Hc as [->|Hc].
+  - apply (nb_kept st p0 m w c _ _ a); auto.
+    + apply Forall_flat_map_in. intros c' Hc'. apply col_ops_safe, LT. now right.
+    + apply Forall_flat_map_in. intros c' Hc'. apply col_ops_other. intros ->. contradiction.
+    + eapply col_ops_nb; eauto.
+  - apply (IH (fun c H => LT c (or_intror H)) _ a); eauto.
+Qed.
+
+Lemma run_inv st p0 m l s a : Forall (op_safe p0 m) l -> InvS st s a -> mstate s p0 m -> InvS st (apply_all s l) a.
+Proof. intros F I MS. now apply (run_safe st p0 m). Qed.
+
+(* ------------------------------------------------------------------ the commit tail *)
 (* the outcome for a prefix state: nothing of w visible yet / w completely visible / the stale-listing point *)
 Definition outcome (ops : list fsop) (k : nat) (sk : fs) (a : adb) (w : writeout) : Prop :=
   Inv sk a \/ Inv sk (adb_put a w) \/ (stale_point ops k = true /\ InvS (Some (w_key w)) sk (adb_put a w)).
@@ -36,55 +125,72 @@ Definition outcome (ops : list fsop) (k : nat) (sk : fs) (a : adb) (w : writeout
 Lemma nth_error_app_r {A} (l1 l2 : list A) k : nth_error (l1 ++ l2) (length l1 + k) = nth_error l2 k.
 Proof. rewrite nth_error_app2 by lia. f_equal. lia. Qed.
 
-(* the operations from CreateTemp on, started in a state where the day directory p exists *)
+(* the operations from CreateTemp on, started in a state where the day directory p exists and holds the new
+   block of every column at the committed end *)
 Lemma commit_tail P s1 a p d1 w :
   Inv s1 a -> day_at s1 p = Some d1 -> dp_key p = w_key w -> put_ok a w = true ->
+  mstate s1 p (cur_meta a (w_key w)) -> wf_w w ->
+  (forall c, c < ncols -> read_col d1 c (nth c (m_cur (cur_meta a (w_key w))) 0) (w_len w c) = Some (blk w c)) ->
   let C := commit_ops p (cur_meta a (w_key w)) w in
   (forall k, outcome (P ++ C) (length P + k) (apply_all s1 (firstn k C)) a w) /\
   Inv (apply_all s1 C) (adb_put a w).
 Proof.
-  intros I D K PO C.
-  set (m' := meta_add (cur_meta a (w_key w)) w) in *.
+  intros I D K PO MS WFw NB C.
+  set (m0 := cur_meta a (w_key w)) in *.
+  set (m' := meta_add m0 w) in *.
   set (t := RTmp p (w_id w)) in *.
+  assert (SAFE : forall m l, Forall (fun o => match o with OOpenX _ | OWrite (RTmp _ _) _ _ | OClose _ | OChmod _ | OUnlink _ | ORmdir _ => True | _ => False end) l ->
+                 Forall (op_safe p m) l).
+  { intros m l F. eapply Forall_impl; [|exact F]. intros o. destruct o as [| | |f|f ? ?|f ? ?|f|f|? ?|? ?|f|f]; try contradiction; cbn; auto.
+    destruct f; try contradiction; cbn; auto. }
   (* the state after CreateTemp and Write *)
   set (s2 := apply_all s1 [OOpenX t; OWrite t 0 (WMeta m')]).
-  assert (I2 : Inv s2 a) by (apply pre_run; auto; repeat constructor).
-  assert (D2 : exists d2, day_at s2 p = Some d2 /\ tmp_get (w_id w) (d_tmps d2) = Some (Some m') /\ d_suf d2 = d_suf d1).
+  assert (I2 : Inv s2 a) by (apply (run_inv None p m0); auto; apply SAFE; repeat constructor).
+  assert (D2 : exists d2, day_at s2 p = Some d2 /\ tmp_get (w_id w) (d_tmps d2) = Some (Some m') /\ d_suf d2 = d_suf d1
+                          /\ forall c, d_cols d2 c = d_cols d1 c).
   { unfold s2, apply_all; cbn [fold_left apply t]. rewrite D. cbn [fst].
     erewrite day_at_upd by (eauto). cbn [fst].
     eexists. split; [apply day_at_upd; [apply day_at_upd; eauto|reflexivity]|].
-    split; [cbn; now rewrite Nat.eqb_refl|reflexivity]. }
-  destruct D2 as (d2 & D2 & T2 & S2).
+    split; [cbn; now rewrite Nat.eqb_refl|split; reflexivity]. }
+  destruct D2 as (d2 & D2 & T2 & S2 & C2).
   destruct (day_at_some _ _ _ D) as [_ O1].
-  pose proof (step_commit s2 a p (w_id w) d2 w I2 D2 K PO T2) as (IS & IC & (d3 & D3 & M3)).
+  assert (NB2 : forall c, c < ncols -> read_col d2 c (nth c (m_cur m0) 0) (w_len w c) = Some (blk w c)).
+  { intros c Hc. rewrite (read_col_ext d1 d2) by auto. now apply NB. }
+  pose proof (step_commit s2 a p (w_id w) d2 w I2 D2 K PO T2 WFw NB2) as (IS & IC & (d3 & D3 & M3)).
   fold t in IS, IC, D3. set (s3 := fst (apply s2 (ORename t (RMeta p)))) in *.
+  assert (MS3 : mstate s3 p m') by (eapply mstate_at; eauto).
   assert (E5 : forall l, apply_all s1 ([OOpenX t; OWrite t 0 (WMeta m'); OClose t; OChmod t; ORename t (RMeta p)] ++ l) = apply_all s3 l).
   { intros l. reflexivity. }
-  set (RD := if otot_eqb (dp_suf p) (Some (m_tot m')) then []
-             else [ORenameDir p {| dp_key := dp_key p; dp_suf := Some (m_tot m') |}]).
+  set (rd := ORenameDir p {| dp_key := dp_key p; dp_suf := Some (m_tot m') |}).
+  set (RD := if otot_eqb (dp_suf p) (Some (m_tot m')) then [] else [rd]).
   assert (EC : C = [OOpenX t; OWrite t 0 (WMeta m'); OClose t; OChmod t; ORename t (RMeta p)] ++ RD ++ [OUnlink t; ORmdir t]) by reflexivity.
-  assert (TL : Forall not_rename [OUnlink t; ORmdir t]) by (repeat constructor).
-  (* the state after the directory rename (if any) satisfies the clean invariant *)
-  assert (I4 : Inv (apply_all s3 RD) (adb_put a w)).
-  { unfold RD. destruct (otot_eqb (dp_suf p) (Some (m_tot m'))) eqn:EQ; unfold apply_all; cbn [fold_left].
-    - apply IC. right. apply otot_eqb_eq in EQ. apply otot_eqb_eq in O1. rewrite S2, O1, EQ. reflexivity.
-    - apply (step_rendir (Some (w_key w)) s3 _ p d3 m'); [exact IS | right; now rewrite K | exact D3 | exact M3]. }
+  assert (TL : Forall (op_safe p m') [OUnlink t; ORmdir t]) by (apply SAFE; repeat constructor).
+  (* the state after the directory rename *)
+  assert (I4 : Inv (fst (apply s3 rd)) (adb_put a w) /\ mstate (fst (apply s3 rd)) p m').
+  { split.
+    - apply (step_rendir (Some (w_key w)) s3 _ p d3 m'); [exact IS | right; now rewrite K | exact D3 | exact M3].
+    - unfold rd. cbn [apply]. rewrite D3. cbn [fst]. eapply mstate_upd; eauto. }
+  destruct I4 as [I4 MS4].
   split.
   - intros k. rewrite EC.
     destruct k as [|[|[|[|[|k]]]]].
-    1-5: left; cbn [firstn app]; apply pre_run; auto; repeat constructor.
+    1-5: left; cbn [firstn app]; apply (run_inv None p m0); auto; apply SAFE; repeat constructor.
     change (firstn (S (S (S (S (S k))))) ([OOpenX t; OWrite t 0 (WMeta m'); OClose t; OChmod t; ORename t (RMeta p)] ++ RD ++ [OUnlink t; ORmdir t]))
       with ([OOpenX t; OWrite t 0 (WMeta m'); OClose t; OChmod t; ORename t (RMeta p)] ++ firstn k (RD ++ [OUnlink t; ORmdir t])).
     rewrite E5.
     unfold RD in *. destruct (otot_eqb (dp_suf p) (Some (m_tot m'))) eqn:EQ.
-    + right. left. cbn [app]. apply pre_prefix; auto.
+    + right. left. cbn [app]. apply (safe_prefix None p m'); auto.
+      apply IC. right. apply otot_eqb_eq in EQ. apply otot_eqb_eq in O1. rewrite S2, O1, EQ. reflexivity.
     + destruct k as [|k]; cbn [app firstn].
       * (* killed between the two renames *)
         destruct (dp_suf p) as [ts|] eqn:SP.
         -- right. right. split; [|exact IS].
            unfold stale_point. rewrite nth_error_app_r. cbn. now rewrite SP.
         -- right. left. apply IC. left. apply otot_eqb_eq in O1. rewrite S2. exact O1.
-      * right. left. cbn [apply_all fold_left]. fold (apply_all (fst (apply s3 (ORenameDir p {| dp_key := dp_key p; dp_suf := Some (m_tot m') |}))) (firstn k [OUnlink t; ORmdir t])).
-        apply pre_prefix; auto.
-  - rewrite EC, E5, apply_all_app. apply pre_run; auto.
+      * right. left. unfold apply_all; cbn [fold_left]. fold (apply_all (fst (apply s3 rd)) (firstn k [OUnlink t; ORmdir t])).
+        apply (safe_prefix None p m'); auto.
+  - rewrite EC, E5, apply_all_app. unfold RD. destruct (otot_eqb (dp_suf p) (Some (m_tot m'))) eqn:EQ.
+    + unfold apply_all at 2; cbn [fold_left]. apply (run_inv None p m'); auto.
+      apply IC. right. apply otot_eqb_eq in EQ. apply otot_eqb_eq in O1. rewrite S2, O1, EQ. reflexivity.
+    + unfold apply_all at 2; cbn [fold_left]. apply (run_inv None p m'); auto.
 Qed.
